@@ -229,7 +229,7 @@ func gcd64(a, b int64) int64 {
 // divByConst returns the simplified quotient (quo=true) or remainder of a by the constant b, or nil
 // when the rewrite does not apply / its side condition cannot be established.
 func (x *Exec) divByConst(quo, signed bool, a, b *Term) *Term {
-	if a.w != 64 || b.op != OpConst || x.spec != nil {
+	if !optAffine || a.w != 64 || b.op != OpConst || x.spec != nil {
 		return nil
 	}
 	d := int64(b.c)
@@ -321,7 +321,7 @@ func (x *Exec) divByConst(quo, signed bool, a, b *Term) *Term {
 // wrap around on this path. Returns nil when not applicable. op is one of OpSlt, OpSle with operands
 // (a, b) in that order.
 func (x *Exec) cmpAffineConst(op Op, a, b *Term) *Term {
-	if a.w != 64 || x.spec != nil || (a.op == OpConst) == (b.op == OpConst) {
+	if !optAffine || a.w != 64 || x.spec != nil || (a.op == OpConst) == (b.op == OpConst) {
 		return nil
 	}
 	st := x.st
